@@ -5,7 +5,24 @@ BOTH_CONFIGS = lambda sub, **kw: [  # noqa: E731
     dict(bin="mon", sub=sub, features="grammar-extras", config="grammar-extras", **kw),
 ]
 
+import c02stage  # noqa: E402
+
 PROPS = {
+    "C02": dict(
+        runs=[dict(kind="custom", fn=c02stage.stage, features="", config="default", mode="c02"),
+              dict(kind="custom", fn=c02stage.stage, features="grammar-extras", config="grammar-extras", mode="c02")],
+        rule=("grammars from G(full) plus the families the property names (WHITESPACE/COMMENT of each of the five modifiers; user rules named "
+              "ASCII_DIGIT/NEWLINE/LETTER/ASCII/NUMBER/HAN; stack ops; built-in and Unicode rules) accepted by parse_and_optimize are compiled by "
+              "the working tree's #[derive(Parser)] (16 generated crates of #[grammar_inline] modules, dev profile) and every (rule, input) is "
+              "parsed by both back-ends in one process: identical token streams (and, under grammar-extras, identical node tags) on success; "
+              "identical error position and identical SETS of expected/unexpected rule names on failure; panics compared as an outcome. "
+              "Non-trivial: non-empty input that parses, or a failing input of >= 2 bytes; distinct = (grammar, rule, input) hashes."),
+        level_text=("Exploration: the real code generator output is compiled and executed next to the real VM on the same grammars and inputs; "
+                    "equality of the two results is the oracle. Reach is bounded by compile cost (a few hundred grammars per quick run)."),
+        level_note="Trusted: nothing beyond the comparison itself; grammar names that are not legal raw identifiers (self, crate, super, Self) are not generated.",
+        technique="runtime monitoring: differential execution of derive-generated parsers and the interpreting VM over generated grammars (compiled at check time), both feature configurations",
+        assumptions=["error rule lists are compared as sets (the two back-ends order rules differently by construction)"],
+    ),
     "C01": dict(
         runs=BOTH_CONFIGS("c01"),
         rule=("random grammars (generator G, profile full: all operators, modifiers, built-ins, stack ops, WHITESPACE/COMMENT) "
@@ -123,7 +140,8 @@ PROPS = {
         assumptions=["cases the reference interpreter cannot finish are skipped and counted"],
     ),
     "C08": dict(
-        runs=BOTH_CONFIGS("c08"),
+        runs=BOTH_CONFIGS("c08") + [dict(kind="custom", fn=c02stage.stage, features="", config="derive-default", mode="c08",
+                                         grammars={"quick": 96, "thorough": 256}, rounds={"quick": 1, "thorough": 6})],
         rule=("random grammars (G full, up to 6 rules) x every start rule x inputs (short exhaustive + walks + mutants) on which the parse "
               "FAILS: the RuleEnter/RuleExit log of the real parse (hook H1c: rule, start position, ok, lookahead polarity, atomicity at exit) "
               "is rebuilt into activations and an offline checker decides the statement clause by clause: (1) reported position = furthest "
